@@ -1319,6 +1319,11 @@ func (fr *Frame) applyContract(sp *FuncSpec, name string, sig *types.Signature, 
 		}
 		t, err := env.Bool(cx)
 		if err != nil {
+			if sp.Pkg == "" && strings.Contains(err.Error(), "cannot resolve type") {
+				// an assumed contract of a dependency that mentions a type none of the loaded packages knows: no value
+				// of that type exists in the code under verification; assuming less is sound
+				continue
+			}
 			e.unsupported = append(e.unsupported, fmt.Sprintf("%s: ensures of %s (%s:%d): %v", fr.prefix, short, c.File, c.Line, err))
 			continue
 		}
@@ -1382,10 +1387,18 @@ func (fr *Frame) applyModifies(m string, sp *FuncSpec, sig *types.Signature, env
 	st := fr.cur.st
 	m = strings.TrimSpace(m)
 	what := "call:" + short
+	unknownType := false
 	fail := func(err error) {
+		if sp.Pkg == "" && strings.Contains(err.Error(), "cannot resolve type") {
+			// a ghost entry addressed through a type none of the loaded packages knows (see ensures above): no such
+			// entry can be named by any contract of the loaded code
+			unknownType = true
+			return
+		}
 		e.unsupported = append(e.unsupported, fmt.Sprintf("%s: modifies %q of %s: %v", fr.prefix, m, short, err))
 		fr.cur.st = e.totalHavoc(fr.cur.st)
 	}
+	_ = unknownType
 	if m == "*" || m == "heap" {
 		if e.topSpec != nil && e.topSpec.HasMod && !e.modAll {
 			fr.oblige("frame", "call("+short+")", "false")
